@@ -17,7 +17,7 @@ Tie:   (a) THRIFT_MAX_NESTING, the CARQUET_MAX_* limits, thrift_type_t, status c
              parser (class, status code, consumed, fields) on valid, mutated, truncated and random bytes;
              extracted Coq spec_decode == the independent Python decoder.
 """
-import random, json, sys, os, time
+import random, json, sys, os, time, re
 sys.setrecursionlimit(20000)
 from pathlib import Path
 sys.path.insert(0, str(Path(__file__).resolve().parent))
@@ -117,6 +117,11 @@ def S(fields):
     return ('struct', fields)
 
 
+# FULL[0]: also emit / expect the fields of parquet.thrift that carquet's parser stores but its writer never emits
+# (Statistics 7, 8; ColumnMetaData 8, 13; DataPageHeaderV2 8) - only an independent encoder produces them
+FULL = [False]
+
+
 def tv_stats(r):
     f = []
     if r[0]:
@@ -131,12 +136,17 @@ def tv_stats(r):
         f.append((5, ('binary', r[6])))
     if r[7]:
         f.append((6, ('binary', r[7])))
+    if FULL[0] and r[8]:
+        f.append((7, ('bool', bool(r[9]))))
+    if FULL[0] and r[10]:
+        f.append((8, ('bool', bool(r[11]))))
     return S(f)
 
 
 def norm_stats(r):
+    ex = [int(bool(r[8])), int(bool(r[9])) if r[8] else 0, int(bool(r[10])), int(bool(r[11])) if r[10] else 0] if FULL[0] else [0, 0, 0, 0]
     return R([r[0] or None, r[1] or None, int(bool(r[2])), r[3] if r[2] else 0, int(bool(r[4])), r[5] if r[4] else 0,
-              r[6] or None, r[7] or None, 0, 0, 0, 0])
+              r[6] or None, r[7] or None] + ex)
 
 
 def tv_lt(r):
@@ -225,13 +235,20 @@ def tv_cm(r):
         f.append((14, ('i64', r[17])))
     if r[18]:
         f.append((15, ('i32', r[19])))
+    if FULL[0]:
+        if len(r[7]):
+            f.append((8, ('list', 12, [tv_kv(k) for k in r[7]])))
+        if len(r[15]):
+            f.append((13, ('list', 12, [S([(1, ('i32', e[0])), (2, ('i32', e[1])), (3, ('i32', e[2]))]) for e in r[15]])))
+        f.sort(key=lambda x: x[0])
     return S(f)
 
 
 def norm_cm(r):
-    return R([r[0], A(list(r[1])), A([x if x is not None else b"" for x in r[2]]), r[3], r[4], r[5], r[6], A([]), r[8],
+    return R([r[0], A(list(r[1])), A([x if x is not None else b"" for x in r[2]]), r[3], r[4], r[5], r[6],
+              A([norm_kv(k) for k in r[7]]) if FULL[0] else A([]), r[8],
               int(bool(r[9])), r[10] if r[9] else 0, int(bool(r[11])), r[12] if r[11] else 0,
-              int(bool(r[13])), norm_stats(r[14]) if r[13] else ZSTATS(), A([]),
+              int(bool(r[13])), norm_stats(r[14]) if r[13] else ZSTATS(), A([R(list(e)) for e in r[15]]) if FULL[0] else A([]),
               int(bool(r[16])), r[17] if r[16] else 0, int(bool(r[18])), r[19] if r[18] else 0])
 
 
@@ -305,7 +322,8 @@ def tv_ph(r):
         f.append((7, S([(1, ('i32', r[11])), (2, ('i32', r[12])), (3, ('bool', bool(r[13])))])))
     elif r[0] == PAGE_V2:
         f.append((8, S([(1, ('i32', r[14])), (2, ('i32', r[15])), (3, ('i32', r[16])), (4, ('i32', r[17])),
-                        (5, ('i32', r[18])), (6, ('i32', r[19])), (7, ('bool', bool(r[20])))])))
+                        (5, ('i32', r[18])), (6, ('i32', r[19])), (7, ('bool', bool(r[20])))] +
+                       ([(8, tv_stats(ZSTATS()))] if FULL[0] and r[21] else []))))
     return S(f)
 
 
@@ -321,6 +339,7 @@ def norm_ph(r):
     elif r[0] == PAGE_V2:
         o[14:20] = r[14:20]
         o[20] = int(bool(r[20]))
+        o[21] = int(bool(r[21])) if FULL[0] else 0
     return o
 
 
@@ -409,7 +428,8 @@ def gflag(rng, p=0.5):
 
 
 def gen_stats(rng):
-    return R([gbin(rng), gbin(rng), gflag(rng), g64(rng), gflag(rng), g64(rng), gbin(rng), gbin(rng), 0, 0, 0, 0])
+    return R([gbin(rng), gbin(rng), gflag(rng), g64(rng), gflag(rng), g64(rng), gbin(rng), gbin(rng),
+              gflag(rng, 0.3), gflag(rng), gflag(rng, 0.3), gflag(rng)])      # 8..11: parsed, never written
 
 
 def gen_lt(rng, i=None):
@@ -452,9 +472,9 @@ def gen_cm(rng):
     return R([g32(rng), A([rng.choice([0, 2, 3, 4, 5, 6, 7, 8, 9, g32(rng)]) for _ in range(min(100, glist_len(rng, 20)))]),
               A([gname(rng, allow_null=rng.random() < 0.1) for _ in range(min(100, glist_len(rng, 18)))]),
               rng.choice([0, 1, 2, 5, 6, 7, g32(rng)]), g64(rng), g64(rng), g64(rng),
-              A([gen_kv(rng) for _ in range(rng.choice([0, 0, 0, 2]))]),      # never written
+              A([gen_kv(rng) for _ in range(rng.choice([0, 0, 2, 15]))]),      # never written
               g64(rng), gflag(rng), g64(rng), gflag(rng), g64(rng), gflag(rng), gen_stats(rng),
-              A([R([g32(rng), g32(rng), g32(rng)]) for _ in range(rng.choice([0, 0, 0, 3]))]),   # never written
+              A([R([g32(rng), g32(rng), g32(rng)]) for _ in range(rng.choice([0, 0, 3, 16]))]),   # never written
               gflag(rng), g64(rng), gflag(rng), g32(rng)])
 
 
@@ -611,6 +631,31 @@ def inject(rng, tv, level, p, budget, log_):
     return tv
 
 
+def add_unmodelled(rng, st, tv):
+    """fields of parquet.thrift that carquet names but does not keep (skipped on parse): FileMetaData 7 column_orders,
+    8 encryption_algorithm, 9 footer_signing_key_metadata; RowGroup 4 sorting_columns; PageHeader 6 index_page_header"""
+    f = list(tv[1])
+    if st == "ph":
+        f.insert(rng.randrange(len(f) + 1), (6, ('struct', [])))
+        return ('struct', f)
+    out = []
+    for fid, x in f:
+        if fid == 4 and x[0] == 'list':
+            rgs = []
+            for g in x[2]:
+                gf = list(g[1])
+                sc = ('list', 12, [('struct', [(1, ('i32', rng.randrange(0, 9))), (2, ('bool', rng.random() < 0.5)), (3, ('bool', rng.random() < 0.5))])
+                                   for _ in range(rng.choice([0, 1, 3, 15]))])
+                gf.insert(rng.randrange(len(gf) + 1), (4, sc))
+                rgs.append(('struct', gf))
+            x = ('list', 12, rgs)
+        out.append((fid, x))
+    out.append((7, ('list', 12, [('struct', [(1, ('struct', []))]) for _ in range(rng.choice([0, 2, 16]))])))
+    out.append((8, ('struct', [(1, ('struct', [(1, ('binary', b"aad")), (3, ('bool', True))]))])))
+    out.append((9, ('binary', bytes(rng.getrandbits(8) for _ in range(rng.choice([0, 7, 200]))))))
+    return ('struct', out)
+
+
 # =============================================================================== cases
 def gen_struct_cases(tier, rng):
     """[(st, m)]"""
@@ -628,6 +673,8 @@ def gen_struct_cases(tier, rng):
         ncols = rng.choice([0, 1, 3]) if n > 60 else rng.choice([0, 1, 2, 14, 15, 16])
         nkv = rng.choice([0, 1, 2, 14, 15, 16, 40])
         out.append(("fm", gen_fm(rng, n, nrg, ncols, nkv)))
+    for _ in range(200 if thorough else 24):      # small footers with every column-level structure present
+        out.append(("fm", gen_fm(rng, rng.choice([1, 2, 3]), 1, rng.choice([1, 2]), rng.choice([0, 1]))))
     nfm = 1500 if thorough else 160
     for _ in range(nfm):
         out.append(("fm", gen_fm(rng, glist_len(rng, 24), rng.choice([0, 1, 1, 2, 15]) if rng.random() < 0.9 else 16,
@@ -692,16 +739,17 @@ def prim_cases(tier, rng):
             if -32768 <= fid <= 32767:
                 ty = rng.choice([1, 2, 3, 4, 5, 6, 7, 8, 9, 10, 11, 12, 13])
                 lv = rng.choice([1, 1, 1, 2, 31, 32])
+                lvr = "%d%s" % (lv, rng.choice(["", "", "r"]))
                 L.append("wfield %d %s %d %s" % (lv, shex(last), ty, shex(fid)))
                 # the same header as the independent encoder writes it, short and long form
                 delta = fid - last
                 bp, bv = (1, 1) if ty == 1 else (1, 0) if ty == 2 else (0, 0)
                 if 1 <= delta <= 15:
-                    li = "rfield %d %s %02x" % (lv, shex(last), (delta << 4) | ty)
+                    li = "rfield %s %s %02x" % (lvr, shex(last), (delta << 4) | ty)
                     L.append(li)
                     PRIM_EXPECT[li] = "OK 1 %d %d %d %d %d 1" % (ty, fid, fid, bp, bv)
                 hx = tr.uleb(tr.zigzag(fid), rng.randrange(0, 3)).hex()
-                li = "rfield %d %s %02x%s" % (lv, shex(last), ty, hx)
+                li = "rfield %s %s %02x%s" % (lvr, shex(last), ty, hx)
                 L.append(li)
                 PRIM_EXPECT[li] = "OK 1 %d %d %d %d %d %d" % (ty, fid, fid, bp, bv, 1 + len(hx) // 2)
     for _ in range(n):
@@ -745,6 +793,56 @@ def prim_cases(tier, rng):
         L.append("rdouble 0 0 %s" % rng.getrandbits(64).to_bytes(8, 'little').hex())
     for k in (0, 1, 2, 31, 32, 33, 40):
         L.append("wnest %d" % k)
+    # entry points parquet_types.c does not use: bool elements, uuid, set headers, string_alloc, skip_field,
+    # decoder set up through thrift_decoder_init_reader (level token with an "r"), type names, limits, NULL arguments
+    # negative sizes (int32 cast of the varint), sizes just above what is left, fixed-width values cut short in skip
+    L += ["rlist 0 0 f5ffffffff0f", "rlist 0 0 f5808080800800", "rset 0 0 f5ffffffff0f", "rmap 0 0 ffffffff0f55", "rmap 0 0 808080800855",
+          "rbin 0 0 ffffffff0f", "rbin 0 0 8080808008"]
+    for ty, w in ((3, 1), (7, 8), (13, 16)):
+        for k in range(0, w + 2):
+            L.append("rskip %s 0 %s %d" % (rng.choice(["0", "1", "1r"]), bytes(k).hex() or "-", ty))
+            L.append("rskip 1 0 %s 9" % (bytes([0x20 | ty]) + bytes(k)).hex())      # list of 2 such values, k bytes present
+    for k in (0, 1, 7, 8, 9, 15, 16, 17):
+        L.append("rdouble 0 0 %s" % (bytes(range(1, k + 1)).hex() or "-"))
+        L.append("ruuid 0 0 %s" % (bytes(range(1, k + 1)).hex() or "-"))
+    L += ["wbool 0", "wbool 1", "limits", "nullargs"] + ["tname %d" % k for k in range(-1, 18)]
+    for b in (0, 1, 2, 3, 255):
+        L.append("rbool 0r 0 %02x" % b)
+    for _ in range(12):
+        u = bytes(rng.getrandbits(8) for _ in range(16))
+        L.append("wuuid " + u.hex())
+        li = "ruuid %s 0 %s" % (rng.choice(["0", "0r", "1"]), (u + bytes(rng.randrange(0, 3))).hex())
+        L.append(li)
+        PRIM_EXPECT[li] = "OK %s 16" % u.hex()
+        L.append("ruuid 0 0 %s" % (u[:rng.randrange(0, 16)].hex() or "-"))
+    for c in list(range(0, 18)) + [127, 128, 300, I32MAX, -1]:
+        ty = rng.randrange(1, 14)
+        L.append("wset %d %s" % (ty, shex(c)))
+        if 0 <= c <= 300:
+            hdr = bytes([(c << 4) | ty]) if c < 15 else bytes([0xF0 | ty]) + tr.uleb(c)
+            li = "rset 0r 0 %s" % (hdr + bytes(c)).hex()
+            L.append(li)
+            PRIM_EXPECT[li] = "OK %d %d %d" % (ty, c, len(hdr))
+            L.append("rset 0 0 %s" % (hdr + bytes(max(0, c - 1))).hex())
+    for ln in [0, 1, 2, 5, 127, 128, 300]:
+        for nul in (False, True):
+            data = bytearray(rng.randrange(1, 256) for _ in range(ln))
+            if nul and ln:
+                data[rng.randrange(ln)] = 0
+            enc = tr.uleb(ln, rng.randrange(0, 2)) + bytes(data)
+            li = "rstr %s 0 %s" % (rng.choice(["0", "1r"]), (enc + bytes(rng.randrange(0, 2))).hex())
+            L.append(li)
+            c = bytes(data).split(b"\0")[0]
+            PRIM_EXPECT[li] = "OK %s %d" % (c.hex() or "-", len(enc))
+            if ln:
+                L.append("rstr 0 0 %s" % enc[:-1].hex())
+    for _ in range(40):
+        v = gen_unknown(rng, rng.randrange(1, 5))
+        ty = (1 if v[1] else 2) if v[0] == 'bool' else tr.CODE[v[0]]
+        body = b"" if v[0] == 'bool' else tr.enc_value(v, tr.Style(rng, 0.3, 0.2, 0.2, 0.5))
+        li = "rskipf %s 0 %s %d" % (rng.choice(["1", "1r", "2"]), (body + b"\x00").hex(), ty)
+        L.append(li)
+        PRIM_EXPECT[li] = "OK %s %d" % (li.split()[1].rstrip("r"), len(body))
     # skip: every wire type, valid encodings at several nesting levels, then damaged ones
     for _ in range(n):
         v = gen_unknown(rng, rng.randrange(1, 6))
@@ -947,7 +1045,36 @@ def run(tier):
                 except tr.DecodeError as e:
                     rep.violation(f"thrift_write_field_header output {a.split()[1]} is not a legal field header: {e}",
                                   {"kind": "line", "case": li, "expect": "a legal field header"})
-        elif t[0] == "wlist" and 1 <= int(t[1]) <= 13 and t[2][0] != '-' and int(t[2], 16) < (1 << 31) and a.startswith("OK"):
+        elif t[0] in ("ruuid", "rdouble") and len(t) == 4:
+            raw = bytes.fromhex(t[3]) if t[3] != "-" else b""
+            w = 16 if t[0] == "ruuid" else 8
+            want = ("OK %s %d" % (raw[:16].hex(), 16) if w == 16 else "OK %x 8" % int.from_bytes(raw[:8], 'little')) if len(raw) >= w else "ERR"
+            if (a != want) if want != "ERR" else not a.startswith("ERR"):
+                rep.violation(f"{t[0]} on {len(raw)} bytes: {a}, an independent reader says {want}", {"kind": "line", "case": li, "expect": want})
+        elif t[0] == "wbool":
+            if a != ("OK 01" if t[1] != "0" else "OK 00"):
+                rep.violation(f"thrift_write_bool({t[1]}) is not the one-byte boolean element: {a}", {"kind": "line", "case": li, "expect": "OK 01" if t[1] != "0" else "OK 00"})
+        elif t[0] == "wuuid":
+            if a != "OK " + t[1]:
+                rep.violation(f"thrift_write_uuid does not write the 16 bytes: {a}", {"kind": "line", "case": li, "expect": "OK " + t[1]})
+        elif t[0] == "tname":
+            names = ["STOP", "TRUE", "FALSE", "BYTE", "I16", "I32", "I64", "DOUBLE", "BINARY", "LIST", "SET", "MAP", "STRUCT", "UUID"]
+            k = int(t[1])
+            want = "OK " + (names[k] if 0 <= k < len(names) else "UNKNOWN")
+            if a != want:
+                rep.violation(f"thrift_type_name({k}): {a} want {want}", {"kind": "line", "case": li, "expect": want})
+        elif t[0] == "limits":
+            ctext = (vlib.COQ / "theories" / "Gen" / "Consts_gen.v").read_text()
+            lim = [re.search(r"Pq_%s : N := (\d+)" % k, ctext).group(1) for k in
+                   ("CARQUET_MAX_SCHEMA_ELEMENTS", "CARQUET_MAX_ROW_GROUPS", "CARQUET_MAX_COLUMNS_PER_RG")]
+            if a != "OK " + " ".join(lim):
+                rep.violation(f"parquet_max_* accessors disagree with the CARQUET_MAX_* limits of parquet_types.c: {a} want {lim}",
+                              {"kind": "line", "case": li, "expect": "OK " + " ".join(lim)})
+        elif t[0] == "nullargs":
+            if a != "OK " + "1 " * 10 + "0":
+                rep.violation(f"a NULL argument is not refused with INVALID_ARGUMENT (or bytes were written): {a}",
+                              {"kind": "line", "case": li, "expect": "OK " + "1 " * 10 + "0"})
+        elif t[0] in ("wlist", "wset") and 1 <= int(t[1]) <= 13 and t[2][0] != '-' and int(t[2], 16) < (1 << 31) and a.startswith("OK"):
             try:
                 ty, cnt, n = ref_list_header(bytes.fromhex(a.split()[1]))
                 if (ty, cnt, n) != (int(t[1]), int(t[2], 16), len(a.split()[1]) // 2):
@@ -959,7 +1086,7 @@ def run(tier):
         if li in PRIM_EXPECT and a != PRIM_EXPECT[li]:
             rep.violation(f"carquet misreads a legal header written by an independent encoder: {a} want {PRIM_EXPECT[li]}",
                           {"kind": "line", "case": li, "expect": PRIM_EXPECT[li]})
-        if a != b:
+        if a != b and t[0] not in ("tname", "limits", "nullargs"):      # those three have no model counterpart
             rep.tie_broken(f"model and implementation differ on a primitive: impl {a[:200]} / model {b[:200]}", li)
 
     # ------------------------------------------------------------------ 2. structures
@@ -1047,9 +1174,21 @@ def run(tier):
                              p_long_list=rng.choice([0, 0.5]), p_alt_bool=0.5)
             inj = []
             tv2 = inject(rng, tv, 0, rng.choice([0.0, 0.15, 0.4]) if len(data) < 3000 else 0.02, 6, inj) if k else tv
+            if k == 1:
+                tv2 = add_unmodelled(rng, st, tv2)
             ok = all(skip_ok(v, 0, lv) for lv, v in inj)
             b2 = tr.enc_struct(tv2, style)
             ind.append((st, "p%s %s" % (st, b2.hex()), ok, mtext(NORM[st](m)), len(b2), m))
+        if len(data) < 3000:
+            # the same structure as a writer that emits ALL the fields carquet's parser stores would encode it
+            FULL[0] = True
+            try:
+                inj3 = []
+                tv3 = inject(rng, TV[st](m), 0, rng.choice([0.0, 0.3]), 4, inj3)
+                b3 = tr.enc_struct(tv3, tr.Style(rng, p_long_field=rng.choice([0, 0.3]), p_pad=0.1, p_long_list=0.2, p_alt_bool=0.5))
+                ind.append((st, "p%s %s" % (st, b3.hex()), all(skip_ok(v, 0, lv) for lv, v in inj3), mtext(NORM[st](m)), len(b3), m))
+            finally:
+                FULL[0] = False
     # nesting up to and beyond the limit, as unknown fields at several struct levels
     base_ph = gen_ph(rng, PAGE_DATA)
     base_fm = gen_fm(rng, 2, 1, 1, 1)
